@@ -226,8 +226,28 @@ def check_route(cx, chk):
                 if "parse_" in txt:
                     n += 1
                     fnn = short(p).split("::")[-1] if not p.endswith("}") else short(p)
-                    if any(x in p for x in ("CodegenRule for", "CharRule>::generate_code", "ExternRule>::generate_code", "CodegenGrammar for", "CharRulePart>::generate_parse_call")):
-                        chk.ok("C08.route", "%s parse_ ident" % short(p), {"fn": short(p), "role": "rule function definition / entry call / @char reference"})
+                    # role of the identifier, read off the tokens of the function that builds it: a definition (`fn #name`), the entry
+                    # call inside the exported `parse_advanced`, or an alternative of a @char rule (which never skips)
+                    idents = [ev.get("text") for ev in evs if ev["kind"] == "ident"]
+                    defines = "fn" in idents and any(ev["kind"] == "hole" for ev in evs)
+                    if not defines:
+                        # the name is handed to a local helper that emits `fn #name ..`
+                        for _, t2 in b.calls():
+                            f2 = t2["func"]
+                            tgt = None if f2.get("indirect") else (f2.get("resolved") or f2["path"])
+                            if tgt in cg.fns and "mir" in cg.fns[tgt] and tgt != p:
+                                evs2 = templates.events(cx, cg, cx.body(cg, tgt))
+                                if any(ev["kind"] == "ident" and ev.get("text") == "fn" for ev in evs2) and any(ev["kind"] == "hole" for ev in evs2):
+                                    defines = True
+                    role = None
+                    if "parse_advanced" in idents:
+                        role = "entry call of the exported parser"
+                    elif defines:
+                        role = "rule function definition"
+                    elif "char_rule" in p or "CharRule" in p:
+                        role = "@char alternative"
+                    if role:
+                        chk.ok("C08.route", "%s parse_ ident" % short(p), {"fn": short(p), "role": role})
                     else:
                         chk.violation("C08.route", "%s builds parse_ identifier" % short(p),
                                       "%s builds a `parse_<Rule>` identifier itself instead of going through the skip helper" % short(p), cx.site(b, j))
